@@ -34,7 +34,8 @@ RULE = ("each run draws lattice/point group, grid (regular or tetrahedral), refi
         "non-trivial = at least one refinement iteration happened")
 PROBES = ["absorb_old_new", "factor_below_1e-8", "factor_below_1e-8_refined", "klist_part_smaller_than_new",
           "dumped_result_reloaded", "mode_memory", "mode_dump", "mode_restartable", "mode_discard", "tetra_grid",
-          "parallel_run", "real_run", "oserror_fired", "npz_files_checked", "kp_files_checked", "dead_point_revived"]
+          "parallel_run", "real_run", "oserror_fired", "npz_files_checked", "kp_files_checked", "dead_point_revived",
+          "smoothed_checked"]
 REAL = ["run_grid.run", "run_grid.process", "Grid/GridTetra", "Kpoint classes (divide, absorb, dump/get results)",
         "exclude_equiv_points", "PointGroup", "ResultDict/EnergyResult arithmetic and save", "pickle/npy/npz I/O"]
 STUB = ["Data_K (StubData) and calculators with known payload (stub runs)", "ray (SimRay) in parallel runs",
@@ -122,6 +123,16 @@ def _simulate(dec, rec, tier, scr):
                 fails.append(("unevaluated_weight", f"iteration {it['i_iter']}: {e}"))
                 return
             ok, err = close(got, want, scale)
+            if ok and key in it.get("smooth", {}):
+                # the smoothed data (what the text file of this iteration holds) must be the smoothed weighted sum
+                sm = b["calculators"][key].smoother
+                want_s = sm(np.asarray(want), axis=0) if sm is not None else np.asarray(want)
+                ok_s, err_s = close(it["smooth"][key], want_s, scale)
+                rec.fire("smoothed_checked")
+                if not ok_s:
+                    fails.append(("smoothed_mismatch", f"iteration {it['i_iter']} result '{key}': the smoothed data written for this "
+                                                       f"iteration differ from the smoothed weighted sum by {err_s:.3e} (scale {scale:.3e})"))
+                    return
             if not ok:
                 fails.append(("sum_mismatch", f"iteration {it['i_iter']} result '{key}': reported integral differs from "
                                               f"sum_i factor_i*result_i over the current K-list by {err:.3e} "
@@ -199,6 +210,13 @@ def _simulate(dec, rec, tier, scr):
         ok, err = close(got, want, scale)
         if not ok:
             return viol("sum_mismatch", f"returned result '{key}' differs from the weighted sum by {err:.3e} (scale {scale:.3e})")
+        sm = getattr(b["calculators"][key], "smoother", None)
+        if sm is not None and cfg["kind"] == "stub_int":
+            ok_s, err_s = close(res.results[key].dataSmooth, sm(np.asarray(want), axis=0), scale)
+            rec.fire("smoothed_checked")
+            if not ok_s:
+                return viol("smoothed_mismatch", f"returned result '{key}': dataSmooth differs from the smoothed weighted sum by "
+                                                 f"{err_s:.3e} (scale {scale:.3e})")
     # ---- saved files
     for it in obs.iterations:
         for key in it["data"]:
